@@ -293,6 +293,8 @@ def check(ctx, rep):
                 return True
             if isinstance(e, ast.Call) and (dotted(e.func) or "") in ("sorted", "list", "tuple") and e.args:
                 return decoded_only(e.args[0], var)
+            if isinstance(e, ast.Call) and (dotted(e.func) or "") == "map" and len(e.args) == 2 and (dotted(e.args[0]) or "") == "os.fsdecode":
+                return decoded_only(e.args[1], var)
             if isinstance(e, (ast.ListComp, ast.GeneratorExp)) and len(e.generators) == 1 and not e.generators[0].ifs \
                     and isinstance(e.generators[0].target, ast.Name):
                 return decoded_only(e.generators[0].iter, var) and decoded_only(e.elt, e.generators[0].target.id)
